@@ -9,7 +9,7 @@ use tree_sitter_highlight::{Highlight, HighlightConfiguration, HighlightEvent, H
 pub fn meta(tier: &str) -> CheckMeta {
     CheckMeta {
         id: "C17", level: "model_checking",
-        rule: "E-box: configurations {stmts with highlights + locals; tmpl with an arith injection in three variants (plain, include-children, combined)} x recognised-name lists {full, without definitions, keywords only} x sources {seeds, all strings of <=k lexemes, all strings of <=4 adversarial byte atoms incl. CR, CRLF, NUL, invalid UTF-8}; ONE Highlighter reused across all sources of a run. Oracle on the event stream: Source spans contiguous, increasing, covering [0,len) exactly once; start/end events never unbalanced and all closed at the end; every span emitted while a highlight of the injected language is open lies inside an injection content node (computed by our own evaluation on the parent tree); a reference that our own scope walk resolves to an earlier definition carries the definition's highlight. HtmlRenderer: tags stripped and the five entities decoded, the output equals the source after the documented normalisations (CR dropped, invalid UTF-8 replaced, final newline added). Non-trivial = sources with at least one highlight span.",
+        rule: "E-box: configurations {stmts with highlights + locals; tmpl with an arith injection in three variants (plain, include-children, combined); three layers tmpl -> combined text chunks as arith -> each parenthesised group as stmts (a node of the middle layer spans a directive)} x recognised-name lists {full, without definitions, keywords only} x sources {seeds, all strings of <=k lexemes, all strings of <=4 adversarial byte atoms incl. CR, CRLF, NUL, invalid UTF-8}; ONE Highlighter reused across all sources of a run. Oracle on the event stream: Source spans contiguous, increasing, covering [0,len) exactly once; start/end events never unbalanced and all closed at the end; every span emitted while a highlight of the injected language is open lies inside an injection content node (computed by our own evaluation on the parent tree); a reference that our own scope walk resolves to an earlier definition carries the definition's highlight. HtmlRenderer: tags stripped and the five entities decoded, the output equals the source after the documented normalisations (CR dropped, invalid UTF-8 replaced, final newline added). Non-trivial = sources with at least one highlight span.",
         assumptions: vec!["runs of U+FFFD are compared collapsed (how many replacement characters an invalid run yields is not documented)".into()],
         exhaustive: true,
         bounds: json!({"tier": tier, "lexeme_strings_k": if tier == "quick" { 2 } else { 3 }, "byte_atoms": 4}),
@@ -189,6 +189,83 @@ fn check_source(cfg: &Cfg, hl: &mut Highlighter, parent_lang: &tree_sitter::Lang
     }
 }
 
+// ---- three layers: tmpl -> (all text chunks combined) arith -> (each parenthesised group, children included) stmts ----------
+// The arith layer has several included ranges (the text chunks); a paren node that starts in one chunk and ends in a later
+// one spans the directive between them, and the stmts layer injected for it must still stay inside the text chunks.
+const NESTED_TMPL_INJ: &str = "((text) @injection.content (#set! injection.language \"arith\") (#set! injection.combined))";
+const NESTED_ARITH_INJ: &str = "((paren) @injection.content (#set! injection.language \"stmts\") (#set! injection.include-children))";
+
+struct Nested { main: HighlightConfiguration, arith: HighlightConfiguration, stmts: HighlightConfiguration, names: Vec<&'static str> }
+
+fn make_nested(variant: usize, stmts: &tree_sitter::Language, arith: &tree_sitter::Language, tmpl: &tree_sitter::Language) -> Nested {
+    let nm = names(variant);
+    let mut main = HighlightConfiguration::new(tmpl.clone(), "tmpl", TMPL_HL, NESTED_TMPL_INJ, "").expect("tmpl nested config");
+    main.configure(&nm);
+    let mut a = HighlightConfiguration::new(arith.clone(), "arith", ARITH_HL, NESTED_ARITH_INJ, "").expect("arith nested config");
+    a.configure(&nm);
+    let mut st = HighlightConfiguration::new(stmts.clone(), "stmts", STMTS_HL, "", STMTS_LOCALS).expect("stmts nested config");
+    st.configure(&nm);
+    Nested { main, arith: a, stmts: st, names: nm }
+}
+
+fn nested_docs(k: usize) -> Vec<Vec<u8>> {
+    let mut out: Vec<Vec<u8>> = ["(1+ <% x %> 2)", "(a <% 1 %> b) c", "( <% x %> )", "((1 <% y %> 2) <% z %> 3)", "(1 <%= q %> 2 <% r %> 3)", "[ (a <% 11 %> b 22) ]", "(1 <% x", "<% x %>(1)<% y %>(2 <% z %> 3)"].iter().map(|s| s.as_bytes().to_vec()).collect();
+    let pieces: [&str; 7] = ["(", ")", "1", "a", " ", "<% x %>", "<%= 7 %>"];
+    for len in 1..=k { crate::util::for_each_seq(pieces.len(), len, |ix| { let mut s = String::new(); for &i in ix { s.push_str(pieces[i]); } out.push(s.into_bytes()); }); }
+    out
+}
+
+fn check_nested(n: &Nested, hl: &mut Highlighter, tmpl_lang: &tree_sitter::Language, variant: usize, src: &[u8], res: &mut ShardResult) {
+    crate::case!("{}", case_json("tmpl-nested", variant, src));
+    res.transitions += 1;
+    let fail = |res: &mut ShardResult, fp: &str, msg: String| res.violation(fp, format!("config tmpl-nested names {} source {:?}: {}", variant, String::from_utf8_lossy(src), msg), case_json("tmpl-nested", variant, src));
+    let (a, st) = (&n.arith, &n.stmts);
+    let events: Vec<HighlightEvent> = {
+        let it = match hl.highlight(&n.main, src, None, None, move |name| match name { "arith" => Some(a), "stmts" => Some(st), _ => None }) { Ok(it) => it, Err(e) => { fail(res, "highlight-error", format!("{:?}", e)); return; } };
+        let mut v = vec![];
+        for e in it { match e { Ok(e) => v.push(e), Err(e) => { fail(res, "highlight-error", format!("{:?}", e)); return; } } if v.len() > 100_000 { fail(res, "highlight-does-not-terminate", "more than 100000 events".into()); return; } }
+        v
+    };
+    let mut parser = Parser::new();
+    parser.set_language(tmpl_lang).unwrap();
+    let xt = XTree::build(&parser.parse(src, None).unwrap());
+    let kind = |i: usize| tmpl_lang.node_kind_for_id(xt.nodes[i].kind_id).unwrap_or("?");
+    let texts: Vec<(usize, usize)> = (0..xt.nodes.len()).filter(|&i| kind(i) == "text").map(|i| (xt.nodes[i].start, xt.nodes[i].end)).collect();
+    let parent_only = ["text", "tag"];
+    let mut pos = 0usize;
+    let mut stack: Vec<(Highlight, usize)> = vec![];
+    let mut any_inner = false;
+    for e in &events {
+        match *e {
+            HighlightEvent::HighlightStart(h) => stack.push((h, pos)),
+            HighlightEvent::HighlightEnd => {
+                let Some((h, s0)) = stack.pop() else { fail(res, "highlight-end-without-start", format!("at byte {}", pos)); return; };
+                // With the full name list every name other than text/tag belongs to an injected layer, and the injected
+                // layers only ever see text chunks. A token of a layer with several ranges may run across the gap between
+                // two chunks (its two halves are adjacent in that layer's text), so what is asserted is that every highlighted
+                // token of an injected layer begins inside a text chunk and ends inside one: nothing that lies in a directive
+                // is a token of an injected layer.
+                if variant == 0 && pos > s0 && n.names.get(h.0).map(|x| !parent_only.contains(x)).unwrap_or(false) {
+                    any_inner = true;
+                    let starts_in = texts.iter().any(|&(s, e2)| s <= s0 && s0 < e2);
+                    let ends_in = texts.iter().any(|&(s, e2)| s < pos && pos <= e2);
+                    if !(starts_in && ends_in) {
+                        fail(res, "injected-highlight-outside-content", format!("{}..{} is highlighted {:?} by an injected layer but the text chunks (the only injected content) are {:?}", s0, pos, n.names.get(h.0), texts));
+                    }
+                }
+            }
+            HighlightEvent::Source { start, end } => {
+                if start != pos || end < start || end > src.len() { fail(res, "source-spans-not-contiguous", format!("span {}..{} after position {} (len {})", start, end, pos, src.len())); return; }
+                pos = end;
+            }
+        }
+    }
+    if pos != src.len() { fail(res, "source-not-covered", format!("spans end at {} of {}", pos, src.len())); }
+    if !stack.is_empty() { fail(res, "highlights-left-open", format!("{} highlights still open at the end", stack.len())); }
+    if any_inner { res.nontrivial += 1; }
+    res.outcome(events.len() as u64 + 1_000_000);
+}
+
 pub fn worker(ctx: &Ctx, res: &mut ShardResult) {
     let stmts_z = crate::zoo::stmts();
     let tmpl_z = crate::zoo::tmpl();
@@ -230,6 +307,14 @@ pub fn worker(ctx: &Ctx, res: &mut ShardResult) {
             }
             if res.samples.len() < 2 { res.sample(case_json(cfg.name, variant, &docs[docs.len() / 3])); }
             if ctx.out_of_time() { res.caps.push("wall-clock budget reached".into()); return; }
+        }
+        let nested = make_nested(variant, &stmts.language, &arith.language, &tmpl.language);
+        for d in nested_docs(if ctx.mini() { 2 } else if ctx.quick() { 4 } else { 5 }) {
+            idx += 1;
+            if !ctx.mine(idx) { continue; }
+            res.states += 1;
+            check_nested(&nested, &mut hl, &tmpl.language, variant, &d, res);
+            if res.too_many() { return; }
         }
     }
 }
